@@ -39,7 +39,7 @@ from . import _an
 PROP = "C13"
 # obligations of the properties this one is downstream of are obligations of this check too (vk.runner.collect_obligations)
 UPSTREAM = ["C05"]
-GEN_REGIONS = ["Ctor", "Attrs", "KernelHeap", "ResultQueries", "CtorShape"]
+GEN_REGIONS = ["Ctor", "Attrs", "KernelHeap", "ResultQueries", "CtorShape", "GlobalState"]
 THEOREMS = {
     # compute() zero-fills non-finite statistics: over strict partial reals every stored XX, YY, XY, S12, S2, M2 is finite (translated each run)
     "SpecKitV.Props.ResultQueriesGen": ["gen_compute_sanitised", "gen_compute_assemble_eq_model"],
@@ -61,6 +61,9 @@ THEOREMS = {
         "gen_ctor_stored_record", "gen_ctor_stored_finite", "gen_ctor_1d_real", "finiteLaws_real", "finiteLaws_preal",
         "spec_shape_transpose", "spec_shape_zero_fill", "spec_shape_none_iff", "spec_ok", "head_fs")],
     # C13FINITE-PLACEHOLDER (filled in below when SpecKitV/Props/C13Finite.lean exists; see FINITE_THEOREMS)
+    # no state outlives a call in the files this property is anchored in (no module/class-level containers, memoisers, mutable defaults) and the
+    # decorators are exactly the audited ones (region GlobalState, re-scanned from the current source each run)
+    "SpecKitV.Props.GlobalStateGen": ["GlobalStateGen.gen_globalState_analysis"],
 }
 # Props/C13Finite.lean (attribute table instantiated at strict partial reals) is written by another task. The theorems it is planned
 # to contain are listed here; they are added to THEOREMS only when the file exists, so that a missing file is not reported as a
